@@ -1917,6 +1917,19 @@ func (k *Kernel) handleReplayedHeader(
 
 	h, r := header.Height, proof.Round
 
+	// The commit proof must be checked against the validator set
+	// this mirror expects for the voting height,
+	// not against whatever validator set the replayed header declares.
+	if !header.ValidatorSet.Equal(s.Voting.ValidatorSet) {
+		return tmelink.ReplayedHeaderValidationError{
+			Err: fmt.Errorf(
+				"replayed header validator set (pub key hash %x) differs from expected validator set (pub key hash %x)",
+				header.ValidatorSet.PubKeyHash, s.Voting.ValidatorSet.PubKeyHash,
+			),
+		}
+	}
+	valSet := s.Voting.ValidatorSet
+
 	// We might have a valid header.
 	// Confirm the hash first,
 	// under the assumption that it is cheaper to validate the hash than the signatures.
@@ -1977,15 +1990,15 @@ func (k *Kernel) handleReplayedHeader(
 				}
 			}
 
-			vals := header.ValidatorSet.Validators
+			vals := valSet.Validators
 			if len(vals) == 0 {
 				// TODO: this should be a gassert instead probably?
 				panic("TODO: ValidatorSet must be populated on replayed headers")
 			}
 			haveProof, err = k.cmspScheme.New(
 				precommitContent,
-				header.ValidatorSet.PubKeys,
-				string(header.ValidatorSet.PubKeyHash),
+				valSet.PubKeys,
+				string(valSet.PubKeyHash),
 			)
 			if err != nil {
 				return tmelink.ReplayedHeaderInternalError{
@@ -2005,7 +2018,7 @@ func (k *Kernel) handleReplayedHeader(
 
 		// Now merge the incoming proof with the local copy.
 		mergeRes := haveProof.MergeSparse(gcrypto.SparseSignatureProof{
-			PubKeyHash: string(header.ValidatorSet.PubKeyHash),
+			PubKeyHash: string(valSet.PubKeyHash),
 			Signatures: sparseSigs,
 		})
 
@@ -2062,8 +2075,8 @@ func (k *Kernel) handleReplayedHeader(
 	var blockPow uint64
 	var bs bitset.BitSet
 	tempProofs[string(header.Hash)].SignatureBitSet(&bs)
-	for i, ok := bs.NextSet(0); ok && int(i) < len(header.ValidatorSet.Validators); i, ok = bs.NextSet(i + 1) {
-		blockPow += header.ValidatorSet.Validators[int(i)].Power
+	for i, ok := bs.NextSet(0); ok && int(i) < len(valSet.Validators); i, ok = bs.NextSet(i + 1) {
+		blockPow += valSet.Validators[int(i)].Power
 	}
 
 	// Arguably we could update the precommit proofs now;
